@@ -1,7 +1,7 @@
 SPECIFICATION Spec
 CONSTANTS
   MaxN = 5
-  NameSet = {"a", "b"}
+  NameSet = {"a", "ab"}
   Prefixes = {}
   Uris = {}
   Texts = {}
